@@ -12,7 +12,7 @@ ACT = dict(
     TRY_SEND_OPT_RT="A_TRY_SEND_OPT_RT", SEND_TO="A_SEND_TIMEOUT", SEND_OPT_TO="A_SEND_OPT_TIMEOUT",
     ASEND="A_ASEND_START", RECV="A_RECV", TRY_RECV="A_TRY_RECV", TRY_RECV_RT="A_TRY_RECV_RT",
     RECV_TO="A_RECV_TIMEOUT", DRAIN="A_DRAIN", ARECV="A_ARECV_START", CLOSE_S="A_CLOSE_S",
-    CLOSE_R="A_CLOSE_R", DROP_S="A_DROP_S", DROP_R="A_DROP_R", NOP="A_NOP",
+    CLOSE_R="A_CLOSE_R", DROP_S="A_DROP_S", DROP_R="A_DROP_R", NOP="A_NOP", OBSERVE="A_OBSERVE",
 )
 DROPPY = ["TagS", "TagP", "TagL"]
 PLAIN = ["u8", "u32", "usize", "Big", "Pad", "PadL"]
@@ -182,41 +182,174 @@ def split_matrix(types, full, outers=("SEND", "RECV", "SEND_TO", "SEND_OPT_TO", 
     return out
 
 
-ALPHA = {"nb": 0, "timed": 1, "life": 2, "async_s": 3, "async_r": 4, "stream": 5, "mix": 6}
-ALPHA_LEN = {"nb": 9, "timed": 6, "life": 9, "async_s": 7, "async_r": 7, "stream": 6, "mix": 10}
-ALPHA_KINDS = {
-    "nb": ["A_TRY_SEND", "A_TRY_SEND_OPT", "A_TRY_SEND_RT", "A_TRY_SEND_OPT_RT", "A_TRY_RECV", "A_TRY_RECV_RT", "A_DRAIN", "A_SEND", "A_RECV"],
-    "timed": ["A_SEND_TIMEOUT", "A_SEND_OPT_TIMEOUT", "A_RECV_TIMEOUT", "A_TRY_SEND", "A_TRY_RECV", "A_CLOSE_S"],
-    "life": ["A_CLONE_S", "A_CLONE_R", "A_DROP_S", "A_DROP_R", "A_CLOSE_S", "A_CLOSE_R", "A_CONVERT_S", "A_CONVERT_R", "A_TRY_SEND"],
-    "async_s": ["A_ASEND_START", "A_ASEND_POLL", "A_ASEND_DROP", "A_TRY_RECV", "A_DRAIN", "A_CLOSE_R", "A_DROP_R"],
-    "async_r": ["A_ARECV_START", "A_ARECV_POLL", "A_ARECV_DROP", "A_TRY_SEND", "A_SEND", "A_CLOSE_S", "A_DROP_S"],
-    "stream": ["A_STREAM_START", "A_STREAM_POLL", "A_STREAM_DROP", "A_TRY_SEND", "A_DROP_S", "A_CLOSE_S"],
-    "mix": ["A_TRY_SEND", "A_TRY_RECV", "A_ASEND_START", "A_ASEND_POLL", "A_ARECV_START", "A_ARECV_POLL", "A_DRAIN", "A_DROP_S", "A_DROP_R", "A_CLOSE_S"],
-}
+# ---- concrete call sequences (family Q) ----
+# atom = (label, kind, future index, waker id, clone variant)
+def _atoms():
+    A = []
+    for k in ("TRY_SEND", "TRY_SEND_OPT", "TRY_SEND_RT", "TRY_SEND_OPT_RT", "SEND", "SEND_TIMEOUT", "SEND_OPT_TIMEOUT",
+              "TRY_RECV", "TRY_RECV_RT", "RECV", "RECV_TIMEOUT", "DRAIN", "DROP_S", "DROP_R", "CLOSE_S", "CLOSE_R",
+              "CONVERT_S", "CONVERT_R", "STREAM_DROP"):
+        A.append((k.lower(), "A_" + k, 0, 0, 0))
+    for f, w in ((0, 0), (1, 1)):
+        A.append(("asend_start%d" % f, "A_ASEND_START", f, w, 0))
+        A.append(("arecv_start%d" % f, "A_ARECV_START", f, w, 0))
+        A.append(("asend_drop%d" % f, "A_ASEND_DROP", f, 0, 0))
+        A.append(("arecv_drop%d" % f, "A_ARECV_DROP", f, 0, 0))
+    for f, w in ((0, 0), (0, 1), (1, 1)):
+        A.append(("asend_poll%dw%d" % (f, w), "A_ASEND_POLL", f, w, 0))
+        A.append(("arecv_poll%dw%d" % (f, w), "A_ARECV_POLL", f, w, 0))
+    A.append(("stream_start", "A_STREAM_START", 0, 0, 0))
+    A.append(("stream_pollw0", "A_STREAM_POLL", 0, 0, 0))
+    A.append(("stream_pollw1", "A_STREAM_POLL", 0, 1, 0))
+    for d in range(4):
+        A.append(("clone_s%d" % d, "A_CLONE_S", 0, 0, d))
+        A.append(("clone_r%d" % d, "A_CLONE_R", 0, 0, d))
+    return A
 
 
-def seq(T, cap, n, al, first=None):
+ATOMS = _atoms()
+ATOM = {a[0]: a for a in ATOMS}
+
+
+def _legal(seq):
+    """cheap syntactic legality (handles / futures exist); semantic preconditions are assumed in the harness"""
+    ls, lr = 1, 1
+    sf, rf, st = [False, False], [False, False], False
+    for (lab, k, f, w, d) in seq:
+        if k in ("A_TRY_SEND", "A_TRY_SEND_OPT", "A_TRY_SEND_RT", "A_TRY_SEND_OPT_RT", "A_SEND", "A_SEND_TIMEOUT",
+                 "A_SEND_OPT_TIMEOUT", "A_CLOSE_S"):
+            if ls == 0:
+                return False
+        elif k in ("A_TRY_RECV", "A_TRY_RECV_RT", "A_RECV", "A_RECV_TIMEOUT", "A_DRAIN", "A_CLOSE_R"):
+            if lr == 0:
+                return False
+        elif k == "A_CONVERT_S":
+            if ls == 0 or any(sf):
+                return False
+        elif k == "A_CONVERT_R":
+            if lr == 0 or any(rf) or st:
+                return False
+        elif k == "A_CLONE_S":
+            if ls == 0 or ls >= 3:
+                return False
+            ls += 1
+        elif k == "A_CLONE_R":
+            if lr == 0 or lr >= 3:
+                return False
+            lr += 1
+        elif k == "A_DROP_S":
+            if ls == 0 or (ls == 1 and any(sf)):
+                return False
+            ls -= 1
+        elif k == "A_DROP_R":
+            if lr == 0 or (lr == 1 and (any(rf) or st)):
+                return False
+            lr -= 1
+        elif k == "A_ASEND_START":
+            if ls == 0 or sf[f]:
+                return False
+            sf[f] = True
+        elif k == "A_ASEND_POLL":
+            if not sf[f]:
+                return False
+        elif k == "A_ASEND_DROP":
+            if not sf[f]:
+                return False
+            sf[f] = False
+        elif k == "A_ARECV_START":
+            if lr == 0 or rf[f]:
+                return False
+            rf[f] = True
+        elif k == "A_ARECV_POLL":
+            if not rf[f]:
+                return False
+        elif k == "A_ARECV_DROP":
+            if not rf[f]:
+                return False
+            rf[f] = False
+        elif k == "A_STREAM_START":
+            if lr == 0 or st:
+                return False
+            st = True
+        elif k == "A_STREAM_POLL":
+            if not st:
+                return False
+        elif k == "A_STREAM_DROP":
+            if not st:
+                return False
+            st = False
+    return True
+
+
+def seqc(T, cap, labels):
+    seq = [ATOM[l] for l in labels]
     capn = "u" if cap is None else str(cap)
-    name = "q_%s_c%s_n%d_%s%s" % (tname(T), capn, n, al, "" if first is None else "_" + first[2:])
-    body = "seq::<%s>(%s, %d, %d, %s);" % (T, "None" if cap is None else "Some(%d)" % cap, n, ALPHA[al],
-                                          "255" if first is None else first)
-    return Inst(name.lower(), body, unwind=10,
-                covers=[],
-                note="all sequences of %d calls from alphabet '%s' %s on capacity %s (%s), each call and the abstraction of the real state compared with the reference model" % (
-                    n, al, ("(first call fixed to %s)" % first) if first else "", capn, T))
+    name = "q_%s_c%s_%s" % (tname(T), capn, "__".join(labels))
+    ops = ", ".join("(%s, %d, %d, %d)" % (k, f, w, d) for (_, k, f, w, d) in seq)
+    body = "seqc::<%s>(%s, &[%s]);" % (T, "None" if cap is None else "Some(%d)" % cap, ops)
+    i = Inst(name.lower(), body, unwind=max(9, len(seq) + 3),
+             note="call sequence [%s] on capacity %s (%s): every result and the abstraction of the real state compared with the reference model" % (
+                 ", ".join(labels), capn, T))
+    i.vacuous_ok = True
+    i.legal_cover = "sequence is legal"
+    return i
 
 
-def seq_matrix(alphas, n, types, caps, shard_first=False):
+def all_sequences(n, atoms=None):
+    atoms = atoms or [a[0] for a in ATOMS]
+    import itertools
+    for labs in itertools.product(atoms, repeat=n):
+        if _legal([ATOM[l] for l in labs]):
+            yield list(labs)
+
+
+CURATED = [
+    # buffer / rendezvous basics
+    ["try_send", "try_send", "try_recv", "try_recv", "try_recv"],
+    ["send", "try_send_opt", "recv", "drain", "try_recv_rt"],
+    ["try_send_rt", "try_send_opt_rt", "recv_timeout", "recv_timeout"],
+    ["send_timeout", "send_opt_timeout", "try_recv", "send_timeout", "drain"],
+    # pending senders refilled into the buffer, FIFO across buffer + wait list
+    ["try_send", "asend_start0", "asend_start1", "try_recv", "try_recv", "asend_poll0w0", "try_recv", "asend_poll1w1"],
+    ["asend_start0", "asend_start1", "drain", "asend_poll1w1", "asend_poll0w1"],
+    ["asend_start0", "asend_poll0w1", "asend_poll0w0", "recv", "asend_poll0w0"],
+    ["asend_start0", "asend_start1", "asend_drop0", "try_recv", "asend_poll1w1", "try_recv"],
+    # pending receivers
+    ["arecv_start0", "arecv_start1", "try_send", "send", "arecv_poll1w1", "arecv_poll0w0"],
+    ["arecv_start0", "arecv_poll0w1", "try_send_opt", "arecv_poll0w1", "try_recv"],
+    ["arecv_start0", "arecv_start1", "arecv_drop0", "try_send", "arecv_poll1w1"],
+    ["arecv_start0", "send_timeout", "arecv_drop0", "try_recv"],
+    # close / disconnect
+    ["try_send", "asend_start0", "close_s", "asend_poll0w0", "try_recv", "close_r", "try_send", "drain"],
+    ["arecv_start0", "close_r", "arecv_poll0w0", "recv_timeout", "send_timeout", "clone_s0", "clone_r1"],
+    ["try_send", "clone_s1", "drop_s", "drop_s", "try_recv", "try_recv", "recv_timeout", "drain"],
+    ["try_send", "clone_r2", "drop_r", "drop_r", "try_send", "send_timeout", "send_opt_timeout", "try_send_opt"],
+    ["arecv_start0", "clone_s3", "drop_s", "drop_s", "arecv_poll0w0"],
+    ["asend_start0", "clone_r0", "drop_r", "asend_poll0w1", "try_recv"],
+    # handles
+    ["clone_s0", "clone_s1", "drop_s", "convert_s", "clone_s2", "drop_s", "drop_s", "drop_s"],
+    ["clone_r3", "convert_r", "clone_r1", "close_r", "drop_r", "clone_r0", "drop_r", "clone_s0"],
+    ["clone_s2", "close_s", "clone_s3", "drop_s", "drop_s", "drop_s", "try_recv"],
+    # stream
+    ["stream_start", "try_send", "stream_pollw0", "stream_pollw1", "stream_pollw0", "try_send", "stream_pollw0", "drop_s",
+     "stream_pollw1", "stream_pollw0"],
+    ["try_send", "try_send", "stream_start", "stream_pollw0", "stream_pollw0", "close_s", "stream_pollw0", "stream_pollw1"],
+    ["stream_start", "stream_pollw1", "stream_drop", "try_send", "try_recv"],
+    ["asend_start0", "stream_start", "asend_poll0w0", "stream_pollw0", "asend_start1", "stream_pollw0", "asend_poll1w1"],
+]
+
+
+def seq_quick(types, caps):
     out, k = [], 0
-    for al in alphas:
+    for labs in all_sequences(1):
         for cap in caps:
-            T = types[k % len(types)]
+            out.append(seqc(types[k % len(types)], cap, labs))
             k += 1
-            if shard_first:
-                for first in ALPHA_KINDS[al]:
-                    out.append(seq(T, cap, n, al, first))
-            else:
-                out.append(seq(T, cap, n, al))
+    for labs in CURATED:
+        assert _legal([ATOM[l] for l in labs]), labs
+        for cap in (0, 1):
+            out.append(seqc(types[k % len(types)], cap, labs))
+            k += 1
     return out
 
 
@@ -233,13 +366,323 @@ def dedup(insts):
     return out
 
 
+def simple(name, body, note, unwind=8, **kw):
+    return Inst(name.lower(), body, unwind=unwind, note=note, **kw)
+
+
+def ptr_units():
+    return [simple("u_ptr_%s" % tname(T), "ptr_unit::<%s>();" % T,
+                   "KanalPtr encode/decode round trips (sender slot, receiver slot, inline owned, copy) for payload class %s, all bit patterns" % T)
+            for T in ZST + PLAIN + DROPPY]
+
+
+def poll_site(T, cap, send_side, site, peer, diff):
+    return simple("ps_%s_c%d_%s_%s_%s_%s" % (tname(T), cap, "sf" if send_side else "rf", site, peer, "diffw" if diff else "samew"),
+                  "poll_site::<%s>(%d, %s, SITE_%s, %s, %s);" % (T, cap, "true" if send_side else "false", site, ACT[peer], "true" if diff else "false"),
+                  "pending %s future re-polled with %s waker while peer %s acts at %s inside that poll" % (
+                      "send" if send_side else "receive", "another" if diff else "the same", peer, site))
+
+
+def poll_sites(types, full):
+    out, k = [], 0
+    for send_side in (True, False):
+        compl = "TRY_RECV" if send_side else "TRY_SEND"
+        kill = "CLOSE_R" if send_side else "CLOSE_S"
+        combos = [("POLL_PENDING", compl, False), ("POLL_PENDING", compl, True), ("POLL_EXISTS", compl, True),
+                  ("POLL_PENDING", kill, True), ("POLL_EXISTS", kill, True), ("POLL_PENDING", "NOP", True)]
+        if full:
+            combos += [("POLL_PENDING", "DRAIN" if send_side else "SEND", False), ("POLL_PENDING", kill, False),
+                       ("POLL_EXISTS", "DROP_R" if send_side else "DROP_S", True)]
+        for (site, peer, diff) in combos:
+            for T in (types if full else [types[k % len(types)]]):
+                for cap in ((0, 1) if full and send_side else (0,)):
+                    out.append(poll_site(T, cap, send_side, site, peer, diff))
+            k += 1
+    return out
+
+
+def poll_split(T, send_side, diff, site, fin):
+    return simple("pp_%s_%s_%s_%s_f%d" % (tname(T), "sf" if send_side else "rf", "diffw" if diff else "samew", site, fin),
+                  "poll_split::<%s>(%s, %s, SITE_%s, %d);" % (T, "true" if send_side else "false", "true" if diff else "false", site, fin),
+                  "split-phase peer has claimed the pending %s future; re-poll with %s waker; peer %s at %s" % (
+                      "send" if send_side else "receive", "another" if diff else "the same", "terminates" if fin else "hands off", site))
+
+
+def poll_splits(types, full):
+    out, k = [], 0
+    for send_side in (True, False):
+        for fin in (0, 1):
+            out.append(poll_split(types[k % len(types)], send_side, False, "ABW_ENTRY", fin))
+            k += 1
+            for site in (ABW_SITES if full else [ABW_SITES[k % 3]]):
+                for T in (types if full else [types[k % len(types)]]):
+                    out.append(poll_split(T, send_side, True, site, fin))
+                k += 1
+    return out
+
+
+def stream_scripts(types, full):
+    out = []
+    for i, (cap, sp) in enumerate([(0, 0), (1, 1), (0, 2)] + ([(2, 1), (1, 2)] if full else [])):
+        for T in (types if full else [types[i % len(types)]]):
+            out.append(simple("st_%s_c%d_sp%d" % (tname(T), cap, sp), "stream_script::<%s>(%d, %d);" % (T, cap, sp),
+                              "receive stream over three waits with %d spurious polls (symbolic wakers) in the second wait, then end" % sp, unwind=8))
+    return out
+
+
+def drain_states(types, full):
+    combos = [(1, 1, 2, False, 1, 0), (0, 0, 1, True, 0, 2), (2, 2, 1, False, 0, 0), (1, 1, 0, True, 2, 1),
+              (0, 0, 2, False, 3, 0), (2, 1, 0, False, 0, 3), (1, 0, 0, False, 1, 1), (1, 1, 1, True, 1, 0)]
+    if full:
+        combos += [(2, 2, 2, True, 2, 0), (0, 0, 2, True, 0, 0), (2, 0, 0, False, 0, 0), (1, 1, 2, True, 3, 2)]
+    out = []
+    for i, (cap, nbuf, na, so, prior, spare) in enumerate(combos):
+        for T in (types if full else [types[i % len(types)]]):
+            out.append(simple("n_drain_%s_c%d_b%d_a%d_%s_p%d_s%d" % (tname(T), cap, nbuf, na, "sync" if so else "nosync", prior, spare),
+                              "drain_state::<%s>(%d, %d, %d, %s, %d, %d);" % (T, cap, nbuf, na, "true" if so else "false", prior, spare),
+                              "drain_into on cap %d with %d buffered, %d pending send futures%s; vector has %d prior elements and %d spare" % (
+                                  cap, nbuf, na, " and a parked sync sender" if so else "", prior, spare), unwind=9))
+    out.append(simple("n_drain_closed", "drain_nothing::<TagL>(true);", "drain_into on a closed channel fails and takes nothing"))
+    out.append(simple("n_drain_receivers", "drain_nothing::<TagP>(false);", "drain_into with only blocked receivers takes nothing"))
+    return out
+
+
+def rt_lockeds(types, full):
+    combos = [(1, 1, 1), (0, 0, 2), (1, 0, 0), (2, 1, 0), (0, 0, 1), (2, 2, 1)]
+    out = []
+    for i, (cap, nbuf, w) in enumerate(combos):
+        for T in (types if full else [types[i % len(types)]]):
+            out.append(simple("n_rt_%s_c%d_b%d_w%d" % (tname(T), cap, nbuf, w), "rt_locked::<%s>(%d, %d, %d);" % (T, cap, nbuf, w),
+                              "*_realtime variants (symbolic choice of the three) while another thread holds the internal lock; cap %d, %d buffered, waiter kind %d" % (cap, nbuf, w)))
+    return out
+
+
+def pick(L, n, seed=0):
+    """n evenly spread elements of L (deterministic)"""
+    if len(L) <= n:
+        return list(L)
+    step = len(L) / float(n)
+    return [L[int(i * step + seed) % len(L)] for i in range(n)]
+
+
+def seqs(labels_list, types, caps):
+    out, k = [], 0
+    for labs in labels_list:
+        for cap in caps:
+            out.append(seqc(types[k % len(types)], cap, labs))
+            k += 1
+    return out
+
+
+def life_atoms():
+    return ["clone_s0", "clone_s1", "clone_s2", "clone_s3", "clone_r0", "clone_r1", "clone_r2", "clone_r3", "drop_s", "drop_r",
+            "close_s", "close_r", "convert_s", "convert_r"]
+
+
+CUR = {  # curated sequences by theme (indices into CURATED)
+    "basic": [0, 1, 2, 3], "fifo": [4, 5, 6, 7, 8], "recvq": [8, 9, 10, 11], "close": [12, 13], "disc": [14, 15, 16, 17],
+    "handles": [18, 19, 20], "stream": [21, 22, 23, 24],
+}
+
+
+def cur(*themes):
+    out = []
+    for t in themes:
+        out += [CURATED[i] for i in CUR[t]]
+    return out
+
+
+MIXED = DROPPY + ["u32", "Big", "Pad"]
+ALLT = ZST + PLAIN + DROPPY
+
+
 def instances(prop, tier):
     full = tier == "thorough"
+    B = lambda outers, peers, types, caps: blocked_matrix(outers, lambda o: peers, types, caps, full)
     L = []
-    if prop == "C05":
-        L += blocked_matrix(SEND_OUTERS, lambda o: RECV_PEERS + KILL_FOR_SENDER + ["NOP"], DROPPY, [0, 1], full)
-        L += blocked_matrix(RECV_OUTERS, lambda o: SEND_PEERS, DROPPY, [0, 1], full)
+    if prop == "C01":
+        L += B(SEND_OUTERS, RECV_PEERS, DROPPY, [0, 1])
+        L += B(RECV_OUTERS, SEND_PEERS, DROPPY, [0, 1])
+        L += async_matrix(DROPPY, [0, 1], full)
+        L += split_matrix(DROPPY, full)
+        L += seqs(cur("basic", "fifo", "recvq"), DROPPY, [0, 1] if not full else [0, 1, 2, None])
+        if not full:
+            L = pick(L, 34)
+    elif prop == "C02":
+        L += seqs(cur("fifo", "recvq", "basic"), DROPPY, [0, 1, 2] if full else [1])
+        L += seqs(cur("fifo"), DROPPY, [0, 2])
+        L += drain_states(DROPPY, full)
+        L += B(["SEND", "SEND_TO"], RECV_PEERS, DROPPY, [1])
+        L += [future_drop(T, c, ss, 1) for T in DROPPY for c in (0, 1) for ss in (True, False)]
+        if not full:
+            L = pick(L, 32)
+    elif prop == "C03":
+        L += B(SEND_OUTERS, RECV_PEERS + KILL_FOR_SENDER + ["OBSERVE"], MIXED, [0, 1])
+        L += B(RECV_OUTERS, SEND_PEERS + KILL_FOR_RECEIVER + ["OBSERVE"], MIXED, [0, 1])
+        L += async_matrix(MIXED, [0, 1], full)
+        L += seqs(CURATED, MIXED, [0, 1] if full else [1])
+        if not full:
+            L = pick(L, 34)
+    elif prop == "C04":
+        L += ptr_units()
+        L += B(["SEND", "SEND_TO"], ["RECV", "TRY_RECV", "DRAIN", "ARECV"], ZST + PLAIN, [0, 1])
+        L += B(["RECV", "RECV_TO"], ["SEND", "TRY_SEND", "TRY_SEND_OPT", "ASEND"], ZST + PLAIN, [0, 1])
+        A = async_matrix(ZST + PLAIN, [0, 1], full, repoll_opts=(0,))
+        L += [i for i in A if "close" not in i.name and "drop" not in i.name and "nop" not in i.name]
+        if not full:
+            L = ptr_units() + pick(L[len(ptr_units()):], 22)
+    elif prop == "C05":
+        L += B(SEND_OUTERS, RECV_PEERS + KILL_FOR_SENDER, DROPPY, [0, 1])
+        L += [timed_alone(T, c, o) for T in DROPPY for c in (0, 1) for o in ("SEND_TO", "SEND_OPT_TO")]
+        A = async_matrix(DROPPY, [0, 1], full)
+        L += [i for i in A if "_sf_" in i.name]
+        D = drop_matrix(DROPPY, [0, 1], full)
+        L += [i for i in D if "_sf_" in i.name]
+        L += split_matrix(DROPPY, full, outers=("SEND", "SEND_TO", "SEND_OPT_TO"))
+        L += seqs([["try_send", "try_send_opt", "try_send_rt", "try_send_opt_rt", "close_s"],
+                   ["try_send_opt", "drop_r", "try_send_opt", "try_send", "send_opt_timeout"],
+                   ["close_r", "try_send_opt_rt", "send_timeout", "send_opt_timeout", "asend_start0"]], DROPPY, [0, 1, 2])
+        if not full:
+            L = pick(L, 36)
+    elif prop == "C06":
+        L += B(["SEND", "RECV"], RECV_PEERS + KILL_FOR_SENDER, DROPPY, [0, 1])
+        L += B(["RECV"], SEND_PEERS + KILL_FOR_RECEIVER, DROPPY, [0, 1])
+        L += B(["SEND"], RECV_PEERS + KILL_FOR_SENDER, DROPPY, [0, 1])
+        L += async_matrix(DROPPY, [0, 1], full)
+        L += split_matrix(DROPPY, full, outers=("SEND", "RECV"))
+        if not full:
+            L = pick(L, 34)
+    elif prop == "C07":
+        L += split_matrix(MIXED, full)
+        D = drop_matrix(MIXED, [0], full)
+        L += [i for i in D if "_st2_" in i.name]
+        L += poll_splits(MIXED, full)
+        L += [i for i in poll_sites(MIXED, full) if "poll_exists" in i.name]
+        if not full:
+            L = pick(L, 34)
+    elif prop == "C08":
+        L += seqs([["try_send", "try_send", "try_send", "try_recv", "try_send"],
+                   ["try_send_opt", "try_send_rt", "send_timeout", "drain", "send"],
+                   ["asend_start0", "try_send", "try_recv", "asend_poll0w0", "try_send_opt_rt"],
+                   ["arecv_start0", "try_send", "try_send", "try_send", "arecv_poll0w0"]], DROPPY, [0, 1, 2, None])
+        L += B(SEND_OUTERS, RECV_PEERS, DROPPY, [0, 1])
+        A = async_matrix(DROPPY, [0, 1], full)
+        L += [i for i in A if "_sf_" in i.name]
+        if not full:
+            L = pick(L, 30)
+    elif prop == "C09":
+        L += B(["SEND", "SEND_TO"], ["ARECV"], MIXED, [0, 1])
+        L += B(["RECV", "RECV_TO"], ["ASEND"], MIXED, [0, 1])
+        A = async_matrix(MIXED, [0, 1], full)
+        L += [i for i in A if any(p in i.name for p in ("_recv_r", "_send_r", "_try_recv_r", "_try_send_r", "_drain", "_send_to", "_recv_to"))]
+        L += seqs(cur("handles") + [["convert_s", "convert_r", "try_send", "arecv_start0", "arecv_poll0w0"],
+                                    ["clone_s1", "clone_r1", "drop_s", "drop_r", "asend_start0", "recv", "asend_poll0w0"],
+                                    ["clone_s2", "clone_r3", "convert_s", "try_send", "stream_start", "stream_pollw0"]], MIXED, [0, 1])
+        L += drain_states(MIXED, False)[:4]
+        if not full:
+            L = pick(L, 30)
+    elif prop == "C10":
+        L += B(SEND_OUTERS, ["CLOSE_S", "CLOSE_R"], DROPPY, [0, 1])
+        L += B(RECV_OUTERS, ["CLOSE_S", "CLOSE_R"], DROPPY, [0, 1])
+        A = async_matrix(DROPPY, [0, 1], full)
+        L += [i for i in A if "close" in i.name]
+        L += [i for i in poll_sites(DROPPY, full) if "close" in i.name]
+        L += seqs(cur("close") + [["close_s", "close_r", "try_send", "try_recv", "send_timeout", "recv_timeout", "drain"],
+                                  ["try_send", "try_send", "close_r", "close_s", "asend_start0", "arecv_start0", "stream_start"],
+                                  ["clone_s0", "close_s", "drop_s", "clone_r1", "try_send_opt", "try_recv_rt"]], DROPPY, [0, 1, 2])
+        if not full:
+            L = pick(L, 32)
+    elif prop == "C11":
+        L += B(SEND_OUTERS, ["DROP_R"], DROPPY, [0, 1])
+        L += B(RECV_OUTERS, ["DROP_S"], DROPPY, [0, 1])
+        A = async_matrix(DROPPY, [0, 1], full)
+        L += [i for i in A if "drop_" in i.name]
+        L += seqs(cur("disc") + [["try_send", "try_send", "drop_s", "try_recv", "try_recv", "try_recv"],
+                                 ["clone_s0", "drop_s", "try_recv", "drop_s", "try_recv", "recv_timeout"],
+                                 ["clone_r0", "drop_r", "try_send", "drop_r", "try_send", "send_timeout", "try_send_opt"],
+                                 ["try_send", "drop_s", "stream_start", "stream_pollw0", "stream_pollw0"]], DROPPY, [0, 1, 2])
+        if not full:
+            L = pick(L, 32)
+    elif prop == "C12":
+        la = life_atoms()
+        L += seqs([[a] for a in la], DROPPY, [1])
+        two = [s for s in all_sequences(2, la)]
+        three = [s for s in all_sequences(3, ["clone_s0", "clone_r1", "clone_s2", "drop_s", "drop_r", "close_s", "convert_r"])]
+        L += seqs(two if full else pick(two, 14), DROPPY, [1])
+        L += seqs(three if full else pick(three, 8), DROPPY, [0])
+        L += seqs(cur("handles"), DROPPY, [1])
+        L += seqs([["clone_s1", "asend_start0", "clone_r2", "drop_r", "drop_s", "asend_poll0w0", "close_r", "clone_s0"]], DROPPY, [0])
+    elif prop == "C13":
+        timed = ["SEND_TO", "SEND_OPT_TO", "RECV_TO"]
+        L += [timed_alone(T, c, o) for T in DROPPY for c in (0, 1) for o in timed]
+        L += B(["SEND_TO", "SEND_OPT_TO"], RECV_PEERS + KILL_FOR_SENDER, DROPPY, [0, 1])
+        L += B(["RECV_TO"], SEND_PEERS + KILL_FOR_RECEIVER, DROPPY, [0, 1])
+        L += split_matrix(DROPPY, full, outers=("SEND_TO", "SEND_OPT_TO", "RECV_TO"))
+        if not full:
+            L = pick(L, 36)
+    elif prop == "C14":
+        L += rt_lockeds(DROPPY, full)
+        L += seqs([["try_send", "try_send", "try_send_opt", "try_send_rt", "try_send_opt_rt"],
+                   ["try_recv", "try_recv_rt", "drain", "try_send", "try_recv_rt", "drain"],
+                   ["asend_start0", "try_send", "try_send_opt", "try_recv", "drain"],
+                   ["arecv_start0", "try_recv", "drain", "try_send_rt", "try_send_opt_rt"],
+                   ["drop_r", "try_send", "try_send_opt", "try_send_rt"], ["close_s", "try_recv", "try_recv_rt", "drain"]],
+                  DROPPY, [0, 1, 2] if full else [0, 1])
+        L += B(["SEND", "SEND_TO"], ["TRY_RECV", "TRY_RECV_RT", "DRAIN"], DROPPY, [0, 1])
+        L += B(["RECV", "RECV_TO"], ["TRY_SEND", "TRY_SEND_OPT", "TRY_SEND_RT", "TRY_SEND_OPT_RT"], DROPPY, [0, 1])
+        if not full:
+            L = pick(L, 32)
+    elif prop == "C15":
+        L += drop_matrix(DROPPY, [0, 1], full)
+        L += [future_drop(T, 0, ss, 2, site, fin) for T in ("u32", "Big", "()") for ss in (True, False)
+              for site, fin in (("ABW_ENTRY", 0), ("ABW_SLEEP", 1))]
+        L += seqs([["asend_start0", "asend_drop0", "try_recv"], ["arecv_start0", "arecv_drop0", "try_send", "try_recv"],
+                   ["asend_start0", "asend_start1", "asend_drop1", "drain", "asend_poll0w0"]], DROPPY, [0, 1])
+        if not full:
+            L = pick(L, 34)
+    elif prop == "C16":
+        L += [repoll_done("TagL", True), repoll_done("TagP", False)]
+        L += [async_waiter(T, c, ss, p, rp) for (T, c, ss, p, rp) in [
+            ("TagL", 0, True, "TRY_RECV", 1), ("TagP", 1, True, "RECV", 2), ("TagS", 0, True, "CLOSE_R", 2), ("TagL", 1, True, "NOP", 2),
+            ("TagL", 0, False, "TRY_SEND", 1), ("TagP", 1, False, "SEND", 2), ("TagS", 0, False, "DROP_S", 2), ("TagP", 0, False, "NOP", 2)]]
+        L += poll_sites(DROPPY, full)
+        L += poll_splits(DROPPY, full)
+        L += stream_scripts(DROPPY, full)
+        L += seqs(cur("stream"), DROPPY, [0, 1] if full else [1])
+        if full:
+            L += async_matrix(DROPPY, [0, 1], True)
+    elif prop == "C18":
+        singles = [s for s in all_sequences(1)]
+        if full:
+            L += seqs(singles, MIXED, [0, 1, 2, None])
+            L += seqs(CURATED, MIXED, [0, 1, 2, None])
+            L += seqs([s for s in all_sequences(2)], MIXED, [1])
+        else:
+            k = 0
+            for s_ in singles:
+                L.append(seqc(MIXED[k % len(MIXED)], [0, 1, 2, None][k % 4], s_))
+                k += 1
+            for s_ in CURATED:
+                L.append(seqc(MIXED[k % len(MIXED)], [1, 0, 2][k % 3], s_))
+                k += 1
+    elif prop == "C19":
+        L += drain_states(DROPPY, full)
+        L += B(["SEND", "SEND_TO", "SEND_OPT_TO"], ["DRAIN"], DROPPY, [0, 1])
+        L += [async_waiter(T, c, True, "DRAIN", rp) for (T, c, rp) in (("TagL", 0, 0), ("TagP", 1, 1), ("TagS", 1, 0))]
+        L += seqs([["try_send", "try_send", "asend_start0", "drain", "asend_poll0w0", "drain"],
+                   ["drain", "try_send", "drain", "close_s", "drain"],
+                   ["arecv_start0", "drain", "try_send", "arecv_poll0w0", "drain"]], DROPPY, [1, 2] if full else [2])
     else:
         raise KeyError(prop)
+    L = dedup(L)
+    if full and len(L) > THOROUGH_MAX:
+        L = pick(L, THOROUGH_MAX)
     L.append(canary())
     return dedup(L)
+
+
+# thorough tier: at most this many solver queries per property (about an hour on 16 cores)
+THOROUGH_MAX = 320
+
+K_PROPS = ["C01", "C02", "C03", "C04", "C05", "C06", "C07", "C08", "C09", "C10", "C11", "C12", "C13", "C14", "C15", "C16",
+           "C18", "C19"]
